@@ -5,6 +5,7 @@ package fs
 
 import (
 	"os"
+	"strings"
 	"syscall"
 	"path/filepath"
 )
@@ -106,7 +107,7 @@ func IsDescendant(dirpath, testpath string) (isDescendant bool, err error) {
 	if err != nil {
 		return
 	}
-	isDescendant = len(rel) > 0 && rel[0] != '.'
+	isDescendant = rel != "." && rel != ".." && !strings.HasPrefix(rel, "../")
 	return
 }
 
